@@ -212,7 +212,7 @@ def _fault_draw(r, tier):
     if r.random() < 0.55:
         return None
     return {'u': round(r.random(), 6), 'scope': r.choice(['L1', 'L2', 'L2']),
-            'window': r.random() < 0.8,
+            'window': r.random() < 0.8, 'when': r.choice(['entry', 'entry', 'return']),
             'exc': r.choice(inject.OSERROR_FAMILY + inject.OTHER_FAMILY)}
 
 
